@@ -223,7 +223,7 @@ def line_verdict(fields, version):
         return None, "empty-line"
     rt = fields[0]
     if rt.startswith("#"):
-        return (True, "ok") if all("\n" not in f and "\r" not in f for f in fields) else (False, "comment.newline")
+        return (True, "ok") if all("\n" not in f and "\r" not in f for f in fields) else (None, "comment.newline")
     key = (version, rt)
     if key not in ARITY:
         if version == "gfa1":
@@ -511,14 +511,14 @@ def doc_verdict(text_lines, version, dialect="standard"):
             if rt in ("H", "C", "P"):
                 V.no("rgfa.line")
             if rt == "S":
-                tg = {t[:2]: t[3] for t in f[3:]}
+                tg = {t[:2]: t[3] for t in f[3:] if split_tag(t)}
                 for n, d in (("SN", "Z"), ("SO", "i"), ("SR", "i")):
                     if n not in tg:
                         V.no("rgfa.tag-missing")
                     elif tg[n] != d:
                         V.no("rgfa.tag-type")
             if rt == "L":
-                tg = {t[:2]: t[3] for t in f[6:]}
+                tg = {t[:2]: t[3] for t in f[6:] if split_tag(t)}
                 for n in ("SR", "L1", "L2"):
                     if n in tg and tg[n] != "i":
                         V.no("rgfa.tag-type")
@@ -653,7 +653,7 @@ def canon_line(text):
         if i > 0 and p is not None and RE_TAGNAME.match(p[0]) and p[1] in "BJH":
             out.append("%s:%s:%s" % (p[0], p[1], canon_tag_value(p[1], p[2])))
         elif i > 0 and p is None:
-            out.append(",".join(canon_cigar(c) for c in x.split(",")))
+            out.append(canon_cigar(x) if canon_cigar(x) != x else ",".join(canon_cigar(c) for c in x.split(",")))
         else:
             out.append(x)
     return "\t".join(out)
